@@ -312,6 +312,63 @@ func c07Ops() []histOp {
 
 var c07Solo map[int]string
 
+// operations of the long-history phase (by name in the operation alphabet)
+var c07LongOps = []string{"TR:dec(complete)", "TR:dec(top required 64 missing)", "TR:dec(only field 1)", "TR:dec(truncated after required fields)",
+	"TU:dec(13 unknown fields)", "TU:dec(no unknown fields)", "TM:dec(full)", "TM:dec(sparse)"}
+
+func c07LongN(tier universe.Tier) int {
+	if tier == universe.Thorough {
+		return 1100
+	}
+	return 300
+}
+
+func c07Long(c *explore.C, tier universe.Tier) {
+	ops := c07Ops()
+	idx := func(name string) int {
+		for i, o := range ops {
+			if o.name == name {
+				return i
+			}
+		}
+		panic("harness error: no operation " + name)
+	}
+	if c07Solo == nil {
+		c07Solo = map[int]string{}
+		for i, op := range ops {
+			hooks.Reset()
+			c07Solo[i] = op.run()
+		}
+	}
+	x := idx(c07LongOps[c.Choose(len(c07LongOps), explore.Data, "first")])
+	y := idx(c07LongOps[c.Choose(len(c07LongOps), explore.Data, "repeated")])
+	z := idx(c07LongOps[c.Choose(len(c07LongOps), explore.Data, "last")])
+	n := 1 + c.Choose(c07LongN(tier), explore.Data, "repetitions")
+	harness.Cur.Crumb(c.Choices())
+	hooks.Reset()
+	hist := fmt.Sprintf("%s, then %d x %s, then %s", ops[x].name, n, ops[y].name, ops[z].name)
+	bad := func(i, oi int, got string) {
+		c.Fail(fmt.Sprintf("call %d (%s) of the history [%s] returns something else than the same call made first in a fresh process", i, ops[oi].name, hist),
+			&harness.Case{Property: "C07", Class: "history-dependent", Type: ops[oi].name, Detail: map[string]interface{}{"history": hist, "got": clip(got), "first_call_result": clip(c07Solo[oi])}})
+	}
+	if got := ops[x].run(); got != c07Solo[x] {
+		bad(1, x, got)
+		return
+	}
+	for i := 0; i < n; i++ {
+		if got := ops[y].run(); got != c07Solo[y] {
+			bad(2+i, y, got)
+			return
+		}
+	}
+	if got := ops[z].run(); got != c07Solo[z] {
+		bad(2+n, z, got)
+		return
+	}
+	harness.Cur.Evals(int64(n + 2))
+	harness.Cur.Outcome(harness.Hash64([]byte(hist)), "long")
+}
+
 func init() {
 	harness.Register(&harness.Check{
 		ID:          "C07",
@@ -328,6 +385,10 @@ func init() {
 				Bound: bound,
 				Rule:  fmt.Sprintf("all sequences of length 1..%d over the operation alphabet x pool answers with <=%d deviations; distinct by (history, observations)", length, bound),
 				Body:  func(c *explore.C) { c07Body(c, length) },
+			}, {
+				Name: "long-histories",
+				Rule: fmt.Sprintf("all histories X Y^n Z with X, Y, Z from %d decode operations (success, required-field failure, truncation failure, unknown fields, map scratch values) and every n in 1..%d (covers counters, epochs and free lists of up to that many uses); default pool answers; every call compared with the same call made first in a fresh process", len(c07LongOps), c07LongN(tier)),
+				Body: func(c *explore.C) { c07Long(c, tier) },
 			}}
 		},
 	})
